@@ -45,6 +45,15 @@ def enum_match_table(F, fn, adt_path, scrut_pred=None, leaf=None):
     enum type `adt_path`: return {variant name: leaf term of _0}."""
     paths, pr = dtree.enumerate_paths(fn)
     table = {}
+    # `*self as uN` on a field-less enum: the code of a variant is its discriminant
+    rets_ = [p for p in paths if p.end == "return"]
+    if len(rets_) == 1 and not rets_[0].conds and scrut_pred is None and leaf is None:
+        t0 = pr.local(0)
+        while t0[0] == "cast" and t0[1] == "IntToInt":
+            t0 = t0[2]
+        a_ = F.adts.get(adt_path)
+        if t0[0] == "discr" and P.strip(t0[1]) == ("param", 1) and a_ is not None and all(not v["fields"] for v in a_["variants"]):
+            return {v["name"]: ("int", v["discr"], "u8") for v in a_["variants"]}
     for p in paths:
         if p.end == "unreachable":
             continue
